@@ -13,13 +13,25 @@
 //! classified quadratic AND violate (b): the self-test of the measurement.
 use std::alloc::{GlobalAlloc, Layout, System};
 use std::panic::{catch_unwind, AssertUnwindSafe};
-use std::sync::atomic::{AtomicBool, AtomicU64, Ordering::Relaxed};
+use std::sync::atomic::{AtomicU64, Ordering::Relaxed};
 use vharness::*;
 
 // ---------------------------------------------------------------------------------------------
 // counting allocator
 struct Counting;
-static ON: AtomicBool = AtomicBool::new(false);
+// the switch is per thread: only the measuring (main) thread is ever counted, so the Lean driver can be fed from
+// background threads while the interpreter is measured (const-initialised Cell<bool>: no lazy init, no destructor,
+// safe to touch inside the allocator)
+thread_local! {
+    static ON: std::cell::Cell<bool> = const { std::cell::Cell::new(false) };
+}
+#[inline]
+fn counting() -> bool {
+    ON.try_with(|c| c.get()).unwrap_or(false)
+}
+fn set_counting(v: bool) {
+    ON.with(|c| c.set(v));
+}
 static BYTES: AtomicU64 = AtomicU64::new(0);
 static CALLS: AtomicU64 = AtomicU64::new(0);
 static LARGEST: AtomicU64 = AtomicU64::new(0);
@@ -29,7 +41,7 @@ static REALLOCS: AtomicU64 = AtomicU64::new(0);
 
 #[inline]
 fn note(size: usize) {
-    if ON.load(Relaxed) {
+    if counting() {
         let s = size as u64;
         BYTES.fetch_add(s, Relaxed);
         CALLS.fetch_add(1, Relaxed);
@@ -57,7 +69,7 @@ unsafe impl GlobalAlloc for Counting {
         // the new size is counted in full, for growing AND shrinking reallocs (growth by doubling is
         // amortised O(total) anyway), and the call counts as an allocation call
         note(new_size);
-        if ON.load(Relaxed) {
+        if counting() {
             REALLOCS.fetch_add(1, Relaxed);
         }
         System.realloc(p, l, new_size)
@@ -71,17 +83,19 @@ static GLOBAL: Counting = Counting;
 //   * the honest cost per unit of (n + k), k = n, is 228 (dict_discard) .. 420 (x[i] = v on any collection:
 //     7 allocator calls and 840 bytes per loop iteration: a fresh scope per iteration, the evaluated
 //     index list, boxed l-values) .. 661 bytes (dict_union: a one-entry dict per iteration plus the
-//     rehash growth of the target) / 666 bytes (dk_multi: two lists growing under two dict keys).  BETA = 2000 leaves a factor 3 over the most expensive honest family
-//     and 4.8 over the typical one;
+//     rehash growth of the target), 666 (dk_multi: two lists growing under two dict keys) .. 926 bytes
+//     (mg_group_struct aliased: `qx[fa] ||++= {7: [i]}` builds a one-entry dict holding a one-element list per
+//     iteration and walks a struct field).  BETA = 2800 leaves a factor 3 over the most expensive honest
+//     family and 6.7 over the typical one;
 //     push/pop pairs (pp_*, k = 2n statements) cost 197 .. 565 bytes per unit of (n + k);
 //   * ALPHA covers the constant part (first growth steps, the range object);
 //   * GAMMA = 2: a make_mut copy allocates exactly len * ELEM for Vec payloads (measured ratio
 //     aliased-unaliased / (copied * ELEM) = 1.000) and at most 16/7 * len entries for a hash map (folded
 //     into ELEM for dicts; measured 0.895 of that).
 // One hidden copy per statement costs n * ELEM bytes per statement: at n = 2000 that is 2000 * 2000 * 48
-// = 192 MB against a bound of ~8 MB (the control family measures exactly this: x23 over the bound).
+// = 192 MB against a bound of ~11.5 MB (the control family measures exactly this: x17 over the bound).
 const ALPHA: u64 = 64 * 1024;
-const BETA: u64 = 2000;
+const BETA: u64 = 2800;
 const GAMMA: u64 = 2;
 /// families whose every statement calls a user-defined closure (uc_*): the call itself (argument vector, a scope
 /// for the parameters, the body's statements) costs 1.2-2.2 kB per call on the unchanged tree, 590 .. 1097 bytes per
@@ -179,6 +193,9 @@ const ROWS_SETUP: &str = "qx := []; for (i <- 0 til qr) qx append= ([0] ** qr)";
 const STRUCT_SETUP: &str = "struct Foo(fa, fb); qx := Foo([0] ** qn, 7)";
 const PP_BUILT: &str = "qx := []; for (i <- 0 til qn) qx append= i";
 const PP_HALF: &str = "qx := []; for (i <- 0 til 2 * qn) qx append= i; for (i <- 0 til qn) pop qx";
+const DD_SETUP: &str = "qx := {:[]}; for (i <- 0 til qn) qx[7] append= i";
+const DD_STRUCT_SETUP: &str = "struct Foo(fa, fb); qx := Foo({:[]}, 7); for (i <- 0 til qn) qx[fa][7] append= i";
+const PD_SETUP: &str = "qx := {}; qx[7] = []; for (i <- 0 til qn) qx[7] append= i";
 const DK_SETUP: &str = "qx := {\"a\": [0] ** qn}";
 const DLD_SETUP: &str = "qx := {\"a\": [{\"b\": [0] ** qn}]}";
 const SD_SETUP: &str = "struct Foo(fa, fb); qx := Foo({\"a\": [0] ** qn}, 7)";
@@ -463,33 +480,190 @@ fn families() -> Vec<Family> {
             work: "for (i <- 0 til qn) (qx[fa] append= i; pop qx[fa])",
             check: st, expect: |s| format!("[{},{},7]", s.n, tri(s.n)), check_alias: sta, expect_alias: |s| format!("[{},{},7]", s.n, tri(s.n)),
             nelem: n_of, k: |s| 2 * s.n, copied: flat, in_model: false },
+
+        // ------------------------------------------------------------------ pop / remove / consume through DEFAULT dicts
+        // (the walker behind pop/remove/consume, modify_existing_index, must recurse into the dict entry in place,
+        // also when the dict has a default value), with plain-dict, struct-field and nested-list counterparts
+        Family { name: "dd_pop", kind: Kind::List, setup: DD_SETUP, work: "for (i <- 0 til qn) pop qx[7]",
+            check: "[len(qx[7]), len(qx)]", expect: |_| "[0,1]".into(),
+            check_alias: "[len(qy[7]), sum(qy[7])]", expect_alias: |s| format!("[{},{}]", s.n, tri(s.n)),
+            nelem: n_of, k: n_of, copied: flat, in_model: false },
+        Family { name: "dd_remove", kind: Kind::List, setup: DD_SETUP, work: "for (i <- 0 til qn) remove qx[7][-1]",
+            check: "[len(qx[7]), len(qx)]", expect: |_| "[0,1]".into(),
+            check_alias: "[len(qy[7]), sum(qy[7])]", expect_alias: |s| format!("[{},{}]", s.n, tri(s.n)),
+            nelem: n_of, k: n_of, copied: flat, in_model: false },
+        Family { name: "dd_consume", kind: Kind::List, setup: "qx := {:[]}; for (i <- 0 til qn) qx[7] append= [i]",
+            work: "for (i <- 0 til qn) consume qx[7][i]",
+            check: "[len(qx[7]), len(qx[7] filter (== null))]", expect: |s| format!("[{},{}]", s.n, s.n),
+            check_alias: "[len(qy[7]), sum(qy[7] map sum)]", expect_alias: |s| format!("[{},{}]", s.n, tri(s.n)),
+            nelem: n_of, k: n_of, copied: flat, in_model: false },
+        Family { name: "dd_pop_inner", kind: Kind::List, setup: "qx := {:[]}; for (i <- 0 til qn) qx[7] append= [i, i]",
+            work: "for (i <- 0 til qn) pop qx[7][i]",
+            check: "[len(qx[7]), sum(qx[7] map len)]", expect: |s| format!("[{},{}]", s.n, s.n),
+            check_alias: "[len(qy[7]), sum(qy[7] map len)]", expect_alias: |s| format!("[{},{}]", s.n, 2 * s.n),
+            // aliased: the long row once, then every two-element inner list once
+            nelem: |s| 3 * s.n, k: n_of, copied: |s| (0, 3 * s.n), in_model: false },
+        Family { name: "dd_concat", kind: Kind::List, setup: DD_SETUP, work: "for (i <- 0 til qn) qx[7] ++= [i]",
+            check: "[len(qx[7]), sum(qx[7])]", expect: |s| format!("[{},{}]", 2 * s.n, 2 * tri(s.n)),
+            check_alias: "[len(qy[7]), sum(qy[7])]", expect_alias: |s| format!("[{},{}]", s.n, tri(s.n)),
+            nelem: n_of, k: n_of, copied: flat, in_model: false },
+        Family { name: "dd_nested", kind: Kind::List,
+            setup: "qx := {:{:[]}}; qx[1] = {:[]}; for (i <- 0 til qn) qx[1][2] append= i",
+            work: "for (i <- 0 til qn) pop qx[1][2]",
+            check: "[len(qx[1][2]), len(qx)]", expect: |_| "[0,1]".into(),
+            check_alias: "[len(qy[1][2]), sum(qy[1][2])]", expect_alias: |s| format!("[{},{}]", s.n, tri(s.n)),
+            nelem: n_of, k: n_of, copied: flat, in_model: false },
+        Family { name: "dd_struct_pop", kind: Kind::List, setup: DD_STRUCT_SETUP, work: "for (i <- 0 til qn) pop qx[fa][7]",
+            check: "[len(qx[fa][7]), qx[fb]]", expect: |_| "[0,7]".into(),
+            check_alias: "[len(qy[fa][7]), sum(qy[fa][7])]", expect_alias: |s| format!("[{},{}]", s.n, tri(s.n)),
+            nelem: n_of, k: n_of, copied: flat, in_model: false },
+        Family { name: "dd_struct_remove", kind: Kind::List, setup: DD_STRUCT_SETUP, work: "for (i <- 0 til qn) remove qx[fa][7][-1]",
+            check: "[len(qx[fa][7]), qx[fb]]", expect: |_| "[0,7]".into(),
+            check_alias: "[len(qy[fa][7]), sum(qy[fa][7])]", expect_alias: |s| format!("[{},{}]", s.n, tri(s.n)),
+            nelem: n_of, k: n_of, copied: flat, in_model: false },
+        Family { name: "dd_list", kind: Kind::List, setup: "qx := [{:[]}]; for (i <- 0 til qn) qx[0][7] append= i",
+            work: "for (i <- 0 til qn) pop qx[0][7]",
+            check: "[len(qx[0][7]), len(qx)]", expect: |_| "[0,1]".into(),
+            check_alias: "[len(qy[0][7]), sum(qy[0][7])]", expect_alias: |s| format!("[{},{}]", s.n, tri(s.n)),
+            nelem: n_of, k: n_of, copied: flat, in_model: false },
+        Family { name: "pd_pop", kind: Kind::List, setup: PD_SETUP, work: "for (i <- 0 til qn) pop qx[7]",
+            check: "[len(qx[7]), len(qx)]", expect: |_| "[0,1]".into(),
+            check_alias: "[len(qy[7]), sum(qy[7])]", expect_alias: |s| format!("[{},{}]", s.n, tri(s.n)),
+            nelem: n_of, k: n_of, copied: flat, in_model: false },
+        Family { name: "pd_remove", kind: Kind::List, setup: PD_SETUP, work: "for (i <- 0 til qn) remove qx[7][-1]",
+            check: "[len(qx[7]), len(qx)]", expect: |_| "[0,1]".into(),
+            check_alias: "[len(qy[7]), sum(qy[7])]", expect_alias: |s| format!("[{},{}]", s.n, tri(s.n)),
+            nelem: n_of, k: n_of, copied: flat, in_model: false },
+        Family { name: "pd_consume", kind: Kind::List, setup: "qx := {}; qx[7] = []; for (i <- 0 til qn) qx[7] append= [i]",
+            work: "for (i <- 0 til qn) consume qx[7][i]",
+            check: "[len(qx[7]), len(qx[7] filter (== null))]", expect: |s| format!("[{},{}]", s.n, s.n),
+            check_alias: "[len(qy[7]), sum(qy[7] map sum)]", expect_alias: |s| format!("[{},{}]", s.n, tri(s.n)),
+            nelem: n_of, k: n_of, copied: flat, in_model: false },
+        Family { name: "struct_pop", kind: Kind::List, setup: STRUCT_SETUP, work: "for (i <- 0 til qn) pop qx[fa]",
+            check: st, expect: |_| "[0,0,7]".into(), check_alias: sta, expect_alias: orig_struct,
+            nelem: n_of, k: n_of, copied: flat, in_model: false },
+        Family { name: "struct_remove", kind: Kind::List, setup: STRUCT_SETUP, work: "for (i <- 0 til qn) remove qx[fa][-1]",
+            check: st, expect: |_| "[0,0,7]".into(), check_alias: sta, expect_alias: orig_struct,
+            nelem: n_of, k: n_of, copied: flat, in_model: false },
+        Family { name: "nl_pop", kind: Kind::List, setup: "qx := [[], [0] ** qn]", work: "for (i <- 0 til qn) pop qx[1]",
+            check: "[len(qx[1]), len(qx)]", expect: |_| "[0,2]".into(),
+            check_alias: "[len(qy[1]), sum(qy[1])]", expect_alias: orig_list,
+            nelem: n_of, k: n_of, copied: flat, in_model: false },
+        Family { name: "nl_remove", kind: Kind::List, setup: "qx := [[], [0] ** qn]", work: "for (i <- 0 til qn) remove qx[1][-1]",
+            check: "[len(qx[1]), len(qx)]", expect: |_| "[0,2]".into(),
+            check_alias: "[len(qy[1]), sum(qy[1])]", expect_alias: orig_list,
+            nelem: n_of, k: n_of, copied: flat, in_model: false },
+        Family { name: "nl_consume", kind: Kind::List, setup: "qx := []; for (i <- 0 til qn) qx append= [i]",
+            work: "for (i <- 0 til qn) consume qx[i]",
+            check: "[len(qx), len(qx filter (== null))]", expect: |s| format!("[{},{}]", s.n, s.n),
+            check_alias: "[len(qy), sum(qy map sum)]", expect_alias: |s| format!("[{},{}]", s.n, tri(s.n)),
+            nelem: n_of, k: n_of, copied: flat, in_model: false },
+        // ------------------------------------------------------------------ container-merging builtins as op-assign operators
+        // (`qx op= small`, k = n times, on a large left operand: the builtin must move values out of the entries it
+        // updates, not clone them)
+        Family { name: "mg_group", kind: Kind::List, setup: "qx := {7: [0] ** qn}", work: "for (i <- 0 til qn) qx ||++= {7: [i]}",
+            check: "[len(qx), len(qx[7]), sum(qx[7])]", expect: |s| format!("[1,{},{}]", 2 * s.n, tri(s.n)),
+            check_alias: "[len(qy[7]), sum(qy[7])]", expect_alias: orig_list,
+            nelem: n_of, k: n_of, copied: flat, in_model: false },
+        Family { name: "mg_group3", kind: Kind::List, setup: "qx := {}", work: "for (i <- 0 til qn) qx ||++= {i % 3: [i, i]}",
+            check: "[len(qx), sum(values(qx) map len)]", expect: |s| format!("[3,{}]", 2 * s.n),
+            check_alias: "[len(qy)]", expect_alias: |_| "[0]".into(),
+            nelem: |s| 2 * s.n, k: n_of, copied: |_| (0, 0), in_model: false },
+        Family { name: "mg_group_nested", kind: Kind::List, setup: "qx := [{}, {7: [0] ** qn}]",
+            work: "for (i <- 0 til qn) qx[1] ||++= {7: [i]}",
+            check: "[len(qx[1]), len(qx[1][7]), sum(qx[1][7])]", expect: |s| format!("[1,{},{}]", 2 * s.n, tri(s.n)),
+            check_alias: "[len(qy[1][7]), sum(qy[1][7])]", expect_alias: orig_list,
+            nelem: n_of, k: n_of, copied: flat, in_model: false },
+        Family { name: "mg_group_struct", kind: Kind::List, setup: "struct Foo(fa, fb); qx := Foo({7: [0] ** qn}, 7)",
+            work: "for (i <- 0 til qn) qx[fa] ||++= {7: [i]}",
+            check: "[len(qx[fa][7]), sum(qx[fa][7]), qx[fb]]", expect: |s| format!("[{},{},7]", 2 * s.n, tri(s.n)),
+            check_alias: "[len(qy[fa][7]), sum(qy[fa][7]), qy[fb]]", expect_alias: orig_struct,
+            nelem: n_of, k: n_of, copied: flat, in_model: false },
+        Family { name: "mg_group_dk", kind: Kind::List, setup: "qx := {\"a\": {7: [0] ** qn}}",
+            work: "for (i <- 0 til qn) qx[\"a\"] ||++= {7: [i]}",
+            check: "[len(qx[\"a\"][7]), sum(qx[\"a\"][7])]", expect: |s| format!("[{},{}]", 2 * s.n, tri(s.n)),
+            check_alias: "[len(qy[\"a\"][7]), sum(qy[\"a\"][7])]", expect_alias: orig_list,
+            nelem: n_of, k: n_of, copied: flat, in_model: false },
+        Family { name: "mg_count", kind: Kind::Dict, setup: DICT_SETUP, work: "for (i <- 0 til qn) qx ||+= {i: 1}",
+            check: dv, expect: |s| format!("[{},{}]", s.n, tri(s.n) + s.n), check_alias: dva, expect_alias: orig_dict,
+            nelem: n_of, k: n_of, copied: flat, in_model: false },
+        Family { name: "mg_sub", kind: Kind::Dict, setup: DICT_SETUP, work: "for (i <- 0 til qn) qx ||-= {i: 1}",
+            check: "[len(qx), sum(values(qx)) + qn]", expect: |s| format!("[{},{}]", s.n, tri(s.n)), check_alias: dva, expect_alias: orig_dict,
+            nelem: n_of, k: n_of, copied: flat, in_model: false },
+        Family { name: "mg_overwrite", kind: Kind::List, setup: "qx := {7: [0] ** qn, 8: [0] ** qn}",
+            work: "for (i <- 0 til qn) qx ||= {7: i}",
+            check: "[len(qx), qx[7], len(qx[8])]", expect: |s| format!("[2,{},{}]", s.n - 1, s.n),
+            check_alias: "[len(qy[7]), len(qy[8])]", expect_alias: |s| format!("[{},{}]", s.n, s.n),
+            nelem: |s| 2 * s.n, k: n_of, copied: |_| (0, 0), in_model: false },
+        Family { name: "mg_discard", kind: Kind::Dict, setup: DICT_SETUP, work: "for (i <- 0 til qn) qx discard= i",
+            check: dk, expect: |_| "[0,0]".into(), check_alias: dka, expect_alias: orig_dict,
+            nelem: n_of, k: n_of, copied: flat, in_model: false },
+        Family { name: "mg_insert", kind: Kind::Dict, setup: DICT_SETUP, work: "for (i <- qn til 2 * qn) qx insert= [i, i]",
+            check: dv, expect: |s| format!("[{},{}]", 2 * s.n, tri(2 * s.n)), check_alias: dva, expect_alias: orig_dict,
+            nelem: n_of, k: n_of, copied: flat, in_model: false },
+        Family { name: "mg_upsert_dict", kind: Kind::Dict, setup: DICT_SETUP, work: "for (i <- 0 til qn) qx |..= [i, i + 1]",
+            check: dv, expect: |s| format!("[{},{}]", s.n, tri(s.n) + s.n), check_alias: dva, expect_alias: orig_dict,
+            nelem: n_of, k: n_of, copied: flat, in_model: false },
+        Family { name: "mg_upsert_list", kind: Kind::List, setup: LIST_SETUP, work: "for (i <- 0 til qn) qx |..= [i, 1]",
+            check: ls, expect: |s| format!("[{},{}]", s.n, s.n), check_alias: la, expect_alias: orig_list,
+            nelem: n_of, k: n_of, copied: flat, in_model: false },
+        // O(len) TIME per statement by design (retain / sort / reverse walk the whole container) but no allocation:
+        // sizes as for the control, so that the thorough tier stays short
+        Family { name: "tq_minus", kind: Kind::Dict, setup: DICT_SETUP, work: "for (i <- 0 til qn) qx --= {i: 0}",
+            check: dk, expect: |_| "[0,0]".into(), check_alias: dka, expect_alias: orig_dict,
+            nelem: n_of, k: n_of, copied: flat, in_model: false },
+        Family { name: "tq_and", kind: Kind::Dict, setup: "qx := {}; for (i <- 0 til qn) qx[i] = i; qz := {}; for (i <- 0 til qn) qz[i] = 0",
+            work: "for (i <- 0 til qn) qx &&= qz",
+            check: dv, expect: |s| format!("[{},{}]", s.n, tri(s.n)), check_alias: dva, expect_alias: orig_dict,
+            nelem: n_of, k: n_of, copied: flat, in_model: false },
+        Family { name: "tq_reverse", kind: Kind::List, setup: LIST_SETUP, work: "for (i <- 0 til qn) qx .= reverse",
+            check: ls, expect: |s| format!("[{},0]", s.n), check_alias: la, expect_alias: orig_list,
+            nelem: n_of, k: n_of, copied: flat, in_model: false },
     ]
 }
 
-/// NOT judged: a closure whose body is the expression `a append b` keeps the parameter `a` alive while the builtin
-/// runs on a second reference, so every call copies the list (the same as `qy = qx append i`); measured and
-/// reported in rep.notes so that the difference to the in-place bodies of the uc_* families is on record
-fn informational_family() -> Family {
-    Family { name: "info_uc_push_expr", kind: Kind::List, setup: "push := \\a, b -> a append b; qx := [0] ** qn",
-        work: "for (i <- 0 til qn) qx push= i",
-        check: "[len(qx), sum(qx)]", expect: |s| format!("[{},{}]", 2 * s.n, tri(s.n)),
-        check_alias: "[len(qy), sum(qy)]", expect_alias: |s| format!("[{},0]", s.n),
-        nelem: n_of, k: n_of, copied: flat, in_model: false }
+/// NOT judged: workloads that are O(len) allocation per statement BY CONSTRUCTION on the unchanged tree (outside the
+/// property's quantifier); measured at n = 500, 1000, 2000 and reported in rep.notes so that the difference to the
+/// judged families is on record
+fn observation_families() -> Vec<(Family, &'static str)> {
+    vec![
+        (Family { name: "obs_uc_push_expr", kind: Kind::List, setup: "push := \\a, b -> a append b; qx := [0] ** qn",
+            work: "for (i <- 0 til qn) qx push= i",
+            check: "[len(qx), sum(qx)]", expect: |s| format!("[{},{}]", 2 * s.n, tri(s.n)),
+            check_alias: "[len(qy), sum(qy)]", expect_alias: |s| format!("[{},0]", s.n),
+            nelem: n_of, k: n_of, copied: flat, in_model: false },
+         "closure body is the expression `a append b`, not an in-place statement: the parameter stays alive while the \
+          builtin runs on a second reference (the same as `qy = qx append i`), one copy per call by construction"),
+        (Family { name: "obs_count_vec", kind: Kind::Vector, setup: "qx := {7: vector([0] ** qn)}",
+            work: "for (i <- 0 til qn) qx ||+= {7: 1}",
+            check: "[len(qx[7]), sum(qx[7])]", expect: |s| format!("[{},{}]", s.n, s.n * s.n),
+            check_alias: "[len(qy[7]), sum(qy[7])]", expect_alias: |s| format!("[{},0]", s.n),
+            nelem: n_of, k: n_of, copied: flat, in_model: false },
+         "`||+` on a vector value is vectorised arithmetic: every statement computes len new elements and collects them \
+          into a new vector, quadratic by design"),
+        (Family { name: "obs_sort", kind: Kind::List, setup: "qx := [0] ** qn", work: "for (i <- 0 til qn) qx .= sort",
+            check: "[len(qx), sum(qx)]", expect: |s| format!("[{},0]", s.n),
+            check_alias: "[len(qy), sum(qy)]", expect_alias: |s| format!("[{},0]", s.n),
+            nelem: n_of, k: n_of, copied: flat, in_model: false },
+         "`sort` rebuilds the whole list (one buffer of len elements per call), quadratic by design; `reverse`, `--`, \
+          `&&` walk the whole container but allocate nothing and are judged (tq_*)"),
+    ]
 }
 
 /// declared type of `qx` in the `@typed` variant of a family
 fn declared_type(name: &str) -> &'static str {
     match name {
         "uc_note" | "uc_note_new" | "uc_dict_list" | "uc_addkey" => return "dict",
-        "uc_struct_push" | "uc_struct_seti" | "pp_struct" => return "Foo",
+        "uc_struct_push" | "uc_struct_seti" | "pp_struct" | "dd_struct_pop" | "dd_struct_remove" | "mg_group_struct" => return "Foo",
+        "dd_list" | "mg_group_nested" | "mg_upsert_list" | "tq_sort" | "tq_reverse" => return "list",
         "uc_vec" => return "vector",
         "uc_bytes" => return "bytes",
         _ => {}
     }
     let p = name.split('_').next().unwrap_or("");
     match p {
-        "list" | "rows" | "wide" | "ld" | "uc" | "pp" => "list",
-        "dict" | "dk" | "dld" | "defdict" => "dict",
+        "list" | "rows" | "wide" | "ld" | "uc" | "pp" | "nl" => "list",
+        "dict" | "dk" | "dld" | "defdict" | "dd" | "pd" | "mg" | "tq" => "dict",
         "vec" => "vector",
         "bytes" => "bytes",
         "str" => "str",
@@ -718,9 +892,9 @@ fn measure(prelude: &str, setup: &str, work: &str, big_thresh: u64, checks: &[(S
     BIG_CALLS.store(0, Relaxed);
     REALLOCS.store(0, Relaxed);
     BIG_THRESH.store(big_thresh.max(1), Relaxed);
-    ON.store(true, Relaxed);
+    set_counting(true);
     let r = catch_unwind(AssertUnwindSafe(|| noulith::evaluate(&env, &expr)));
-    ON.store(false, Relaxed);
+    set_counting(false);
     m.bytes = BYTES.load(Relaxed);
     m.calls = CALLS.load(Relaxed);
     m.largest = LARGEST.load(Relaxed);
@@ -883,7 +1057,10 @@ fn main() {
          dict-of-list-of-dict, list-of-dict, struct-field-of-dict, default dicts: d[k] append=, ++=, |.=, d[k][i] f= v, \
          d[k][i] = v; user-defined closures as the operator of an op-assign (x f= v, x .= f) mutating their \
          parameter, on lists, rows, dicts, dict values, struct fields, vectors, bytes; append/pop pairs at a \
-         capacity boundary with n = 2^m exactly) x (variable declared with `:=`, declared with a type annotation `qx: list = ..` = `@typed`) x \
+         capacity boundary with n = 2^m exactly; pop / remove / consume through default dicts ({{:[]}}, nested, in a struct \
+         field, in a list), plain dicts, struct fields and nested lists; container-merging builtins as op-assign \
+         operators on a large left operand: ||++ (top level, in a list, struct field, under a dict key), ||+, ||-, \
+         ||, --, &&, discard, insert, |.., .= reverse) x (variable declared with `:=`, declared with a type annotation `qx: list = ..` = `@typed`) x \
          (unaliased, once-aliased) x sizes n0={}, 2 n0, 4 n0 with k = n \
          statements, each in a fresh interpreter; bytes requested from the global allocator during evaluate() of the \
          workload only; a case is one (family, variant, size) measurement; plus the quadratic control (self-test)",
@@ -891,22 +1068,33 @@ fn main() {
     );
     let _ = Rng::new(args.seed); // the workloads are deterministic: nothing is drawn from the seed
 
+    let t_start = std::time::Instant::now();
     let mut fams = families();
     let typed_fams: Vec<Family> = fams.iter().map(typed).collect();
     fams.extend(typed_fams);
     fams.push(control_family());
     let control_idx = fams.len() - 1;
 
-    // ---- 1. measurements
+    // ---- 0. plan: rows, sizes and model requests (the Lean driver then runs in the background while the
+    // interpreter is measured: the counting allocator only counts on the measuring thread)
     let mut rows: Vec<Row> = vec![];
     let mut requests: Vec<String> = vec![];
     let mut replay_req: Vec<Option<String>> = vec![];
     let mut req_index: std::collections::HashMap<String, usize> = Default::default();
-    let info_note: String;
+    let mut info_notes: Vec<String> = vec![];
     for (fi, f) in fams.iter().enumerate() {
-        let variants: &[bool] = if fi == control_idx { &[true] } else { &[false, true] };
+        // the once-aliased variant of a @typed family adds nothing over (typed unaliased, untyped aliased): skipped
+        let variants: &[bool] = if fi == control_idx {
+            &[true]
+        } else if f.name.ends_with("@typed") {
+            &[false]
+        } else {
+            &[false, true]
+        };
         for &aliased in variants {
             let base = if fi == control_idx {
+                n0_control
+            } else if f.name.starts_with("tq_") {
                 n0_control
             } else if f.name.starts_with("pp_") {
                 n0_pow2
@@ -914,21 +1102,8 @@ fn main() {
                 n0
             };
             let szs = [Sz::new(base), Sz::new(2 * base), Sz::new(4 * base)];
-            let setup = if aliased { format!("{}; qy := qx", f.setup) } else { f.setup.to_string() };
-            let mut meas = vec![];
             let mut reqs = [None, None, None];
             for (si, s) in szs.iter().enumerate() {
-                let mut checks = vec![(f.check.to_string(), (f.expect)(s))];
-                if aliased {
-                    checks.push((f.check_alias.to_string(), (f.expect_alias)(s)));
-                }
-                // "big" request = at least half of one full copy of the payload
-                let thresh = (f.nelem)(s).max((f.k)(s)) * elem_size(f.kind) / 2;
-                let m = measure(&s.prelude(), &setup, f.work, thresh, &checks);
-                let input = format!("{} ;; {} ;; n={}", setup, f.work, s.n);
-                rep.case(&input, true);
-                rep.arm(if fi == control_idx { "control:quadratic" } else { f.name });
-                meas.push(m);
                 if fi == control_idx {
                     // the control's model request is qualitative (copied = n * n): one request at a small size
                     if si == 0 {
@@ -956,13 +1131,41 @@ fn main() {
                 None
             };
             replay_req.push(rr);
-            rows.push(Row { fam: fi, aliased, szs, meas, reqs });
+            rows.push(Row { fam: fi, aliased, szs, meas: vec![], reqs });
+        }
+    }
+    let driver_thread = {
+        let driver = args.driver.clone();
+        let reqs = requests.clone();
+        std::thread::spawn(move || {
+            let t = std::time::Instant::now();
+            let r = run_driver_parallel(&driver, &reqs, 12);
+            (r, t.elapsed())
+        })
+    };
+
+    // ---- 1. measurements
+    for row in rows.iter_mut() {
+        let f = &fams[row.fam];
+        let setup = if row.aliased { format!("{}; qy := qx", f.setup) } else { f.setup.to_string() };
+        for s in row.szs.iter() {
+            let mut checks = vec![(f.check.to_string(), (f.expect)(s))];
+            if row.aliased {
+                checks.push((f.check_alias.to_string(), (f.expect_alias)(s)));
+            }
+            // "big" request = at least half of one full copy of the payload
+            let thresh = (f.nelem)(s).max((f.k)(s)) * elem_size(f.kind) / 2;
+            let m = measure(&s.prelude(), &setup, f.work, thresh, &checks);
+            let input = format!("{} ;; {} ;; n={}", setup, f.work, s.n);
+            rep.case(&input, true);
+            rep.arm(if row.fam == control_idx { "control:quadratic" } else { f.name });
+            row.meas.push(m);
         }
     }
 
-    // ---- 1b. information only (outside the quantifier, not judged)
-    {
-        let f = informational_family();
+    let t_meas = t_start.elapsed();
+    // ---- 1b. observations only (outside the quantifier, not judged)
+    for (f, why) in observation_families() {
         let mut b = [0u64; 3];
         let mut xs = [0u64; 3];
         let mut broken = None;
@@ -974,17 +1177,24 @@ fn main() {
             broken = broken.or(m.broken);
         }
         let (c, e1, e2) = classify_growth(&b, &xs);
-        info_note = format!(
-            "information only, NOT judged (closure body is the expression `a append b`, not an in-place statement: the \
-             parameter stays alive, one copy per call by construction): {} ;; {} ;; n=500,1000,2000 bytes=[{},{},{}] \
-             e=[{:.2},{:.2}] -> {}{}",
-            f.setup, f.work, b[0], b[1], b[2], e1, e2, c, broken.map(|w| format!(" BROKEN: {}", w)).unwrap_or_default()
-        );
+        info_notes.push(format!(
+            "observation only, NOT judged: {}: {} ;; {} ;; n=500,1000,2000 bytes=[{},{},{}] e=[{:.2},{:.2}] -> {} by design ({}){}",
+            f.name, f.setup, f.work, b[0], b[1], b[2], e1, e2, c, why,
+            broken.map(|w| format!(" BROKEN: {}", w)).unwrap_or_default()
+        ));
     }
+    info_notes.push(
+        "observation only: `prepend` takes (element, list), so it cannot be the operator of an op-assign on the list \
+         (`qx prepend= i` raises); not measured.  String `$=` and `qx = qx ++ [i]` are outside the property (not op-assign \
+         on a collection payload / not an op-assign) and quadratic"
+            .to_string(),
+    );
 
+    let t_obs = t_start.elapsed();
     // ---- 2. the model's cost ledger
-    let resp = run_driver_parallel(&args.driver, &requests, 12);
+    let (resp, t_driver) = driver_thread.join().expect("driver thread");
 
+    let t_model = t_start.elapsed();
     // ---- 3. verdicts
     let obj = elem_size(Kind::List);
     rep.notes.push(format!(
@@ -1137,7 +1347,11 @@ fn main() {
         "measured-only (outside the model's statement vocabulary; closed-form prediction 0 / n copied): {}",
         measured_only.join(" ")
     ));
-    rep.notes.push(info_note);
+    rep.notes.extend(info_notes);
+    rep.notes.push(format!(
+        "wall time: measurements {:.1}s, observations {:.1}s, model {:.1}s in the background (waited {:.1}s more)",
+        t_meas.as_secs_f64(), (t_obs - t_meas).as_secs_f64(), t_driver.as_secs_f64(), (t_model - t_obs).as_secs_f64()
+    ));
     rep.notes.push(format!("model requests: {} (all sizes <= {})", requests.len(), MODEL_MAX_N));
     rep.write(&args.out);
 }
